@@ -33,7 +33,7 @@ CHECKS = {
             "Generated search: expressions with sign runs, redundant parentheses, EQUs and predefined constants observed as operands (core size 2^34: value recoverable exactly), ORG arguments, FOR counts and ;assert conditions; compared with an own precedence-climbing evaluator over math/big.",
             "Trusts harness/rc Eval; final values outside int32 are discarded.",
             "DESIGN.md section 4, C07"),
-    "C08": ("metamorphic + model-based property testing: FOR program vs abstract unrolling vs meaning (rapid)",
+    "C08": ("metamorphic + model-based property testing: FOR program vs abstract unrolling vs meaning (rapid); native fuzzing of the same generator in the thorough tier",
             "Generated search over program trees with sequential and nested FOR blocks, EQU counts, zero counts, counters in arithmetic and block labels used inside and outside; CompileWarrior(FOR text) == CompileWarrior(unrolled text) == meaning(unrolled). Sub-check replicated: thousands of renamed copies of a generated FOR program.",
             "Programs whose unrolling is ill-defined are kept out of the generator (listed in DESIGN.md).",
             "DESIGN.md section 4, C08"),
